@@ -341,15 +341,24 @@ def oracle_average_reward_spread(ctx: Ctx, case):
     vals = sorted(set(G.values()))
     n = 4
     seen = set()
+    mixed_calls = unique_calls = 0
     for j in range(24):
         got = float(_avg(env, policy, jr.key(case["key"] + j), n, case["max_steps"], True))
         hit = [c for c in itertools.combinations_with_replacement(vals, n) if abs(sum(c) - n * got) <= 1e-8 * (1 + abs(n * got))]
         ctx.check(bool(hit), "C19/eval/not-the-mean-of-n-episode-returns", tags={"mode": "deterministic", "cap": "scan"}, observed=got, episode_returns=G)
         if len(hit) == 1:
             seen |= set(hit[0])
-    if len(vals) >= 2 and len(vals) <= 3:
+            mixed_calls += len(set(hit[0])) > 1
+            unique_calls += 1
+    pmin = min(sum(1 for s0 in starts if G[s0] == v) for v in vals) / len(starts)
+    if len(vals) >= 2 and pmin >= 0.25 and unique_calls >= 20:  # miss probability <= 4*(3/4)^80 ~ 4e-10
         # 96 independent uniform draws over <= 4 start states miss a given value with prob <= (3/4)^96 ~ 1e-12
         ctx.check(seen == set(vals), "C19/eval/episodes-not-independent-draws", seen=sorted(seen), possible=vals)
+        # within one call the 4 episodes are independent draws: over >= 12 uniquely decomposable calls,
+        # all of them consisting of 4 identical episodes is (practically) impossible
+        pmax = max(sum(1 for s0 in starts if G[s0] == v) for v in vals) / len(starts)
+        if unique_calls >= 12 and pmax <= 0.5:  # P(4 equal) <= 1/8 per call -> <= 1.5e-11 over 12 calls
+            ctx.check(mixed_calls > 0, "C19/eval/episodes-of-one-call-are-copies", unique_calls=unique_calls, possible=vals)
     ctx.count(nontrivial=len(vals) >= 2, classes=[f"distinct_returns={len(vals)}"], key=[case["key"] % 512, sorted(G.items())])
 
 
